@@ -4,7 +4,7 @@ one C++ source line per (slot, shape), spread over NTU translation units,
 plus sites.json (file:line -> slot, shape, expected expectation text)."""
 import json, os, sys
 sys.path.insert(0, os.path.dirname(os.path.abspath(__file__)))
-from shapes import SHAPES, NSLOT, NMON
+from shapes import SHAPES, NSLOT, NMON, SCOPED_IDS
 
 NTU = 16
 
@@ -55,7 +55,8 @@ def call_text(sh, S):
 
 def main(outdir):
     os.makedirs(outdir, exist_ok=True)
-    pairs = [(S, sh) for sh in SHAPES for S in range(1, NSLOT + 1)]
+    pairs = [(S, sh) for sh in SHAPES for S in range(1, NSLOT + 1) if sh['id'] not in SCOPED_IDS]
+    spairs = [(S, sh) for sh in SHAPES for S in range(1, NSLOT + 1) if sh['id'] in SCOPED_IDS]
     tus = [[] for _ in range(NTU)]
     for i, p in enumerate(pairs):
         tus[i % NTU].append(p)
@@ -81,6 +82,33 @@ def main(outdir):
         lines.append('default: return false; } } }')
         with open(os.path.join(outdir, fname), 'w') as f:
             f.write('\n'.join(lines) + '\n')
+    # scoped forms: the expectation is a local variable; `created` logs the creation, `body` runs the ops of the scope
+    fname = 'sites_scoped.cpp'
+    lines = ['#include "rt.hpp"', 'using namespace drv; using trompeloeil::_;',
+             'namespace drv { bool make_scoped(int slot, int shape, std::function<void()> const& created, std::function<void()> const& body) { SlotCfg& c = cfg[slot]; (void)c; switch (slot * 100 + shape) {']
+    for (S, sh) in spairs:
+        ct = call_text(sh, S)
+        mods = ''.join(clause_code(t, S) for t in sh['cl'])
+        m = sh['macro']
+        if m.endswith('_V'):
+            macro = {'SREQ_V': 'REQUIRE_CALL_V', 'SALLOW_V': 'ALLOW_CALL_V', 'SFORBID_V': 'FORBID_CALL_V'}[m]
+            stmt = '%s(*mocks[cfg[%d].mock], %s%s);' % (macro, S, ct, (', ' + mods) if mods else '')
+        else:
+            macro = {'SREQ': 'REQUIRE_CALL', 'SALLOW': 'ALLOW_CALL', 'SFORBID': 'FORBID_CALL'}[m]
+            stmt = '%s(*mocks[cfg[%d].mock], %s)%s;' % (macro, S, ct, mods)
+        lines.append('case %d: { %s created(); body(); } return true;' % (S * 100 + sh['id'], stmt))
+        sites['%s:%d' % (fname, len(lines))] = dict(kind='exp', slot=S, shape=sh['id'], name='*mocks[cfg[%d].mock].' % S + ct)
+    lines.append('default: return false; } }')
+    lines.append('bool make_scoped_monitor(int k, int o, int nq, int q1, int q2, std::function<void()> const& created, std::function<void()> const& body) { (void)q1; (void)q2; switch (k * 10 + nq) {')
+    for k in range(1, NMON + 1):
+        for nq, tail in ((0, ''), (1, '.IN_SEQUENCE(*seqs[q1])'), (2, '.IN_SEQUENCE(*seqs[q1], *seqs[q2])')):
+            lines.append('case %d: { REQUIRE_DESTRUCTION(*objs[o])%s; created(); body(); } return true;' % (k * 10 + nq, tail))
+            sites['%s:%d' % (fname, len(lines))] = dict(kind='mon', k=k, nq=nq, name='REQUIRE_DESTRUCTION(*objs[o])',
+                                                          call='destructor for *objs[o]', obj='*objs[o]')
+    lines.append('default: return false; } }')
+    lines.append('}')
+    with open(os.path.join(outdir, fname), 'w') as f:
+        f.write('\n'.join(lines) + '\n')
     # monitors + dispatcher
     fname = 'sites_mon.cpp'
     lines = ['#include "rt.hpp"', 'using namespace drv;', 'namespace drv {']
